@@ -20,7 +20,7 @@ RULE = ("case = (helper class, device/speed-grade variant, vco_margin, input fre
         "margin), generation mode); modes: 'rand' (input log-uniform/rounded/common/bounds in the declared input range, outputs "
         "log-uniform/rounded/common in the reachable output range), 'byc' (dividers/multipliers drawn inside the declared "
         "ranges first with bias to the range ends, the exactly resulting frequencies requested; witness kept in the case), "
-        "'near' (as byc, each frequency then moved by +-{0.5,0.9,0.999,1.001,1.1} x margin); the real helper is built, "
+        "'near' (as byc, each frequency then moved by +-{0.5,0.9,0.999,1.001,1.1} x margin), 'edge' (as byc with one divider/multiplier on the first value past the end of its declared range, margin 1e-4, no witness); the real helper is built, "
         "finalized and its compute_config() result captured; non-trivial = a configuration was returned and fully "
         "checked (formula, ranges, windows, Instance parameters) or a refusal was cross-checked by the independent search; "
         "distinct = canonical JSON of the case")
@@ -354,15 +354,31 @@ def st_case(fam, tier, classes=None):
         vm = draw(st.sampled_from(fam.vms))
         fin = draw(fam.st_fin(L, tier))
         nout = draw(fam.st_nout(L))
-        how = draw(st.sampled_from(["rand", "byc", "byc", "near"]))
+        how = draw(st.sampled_from(["rand", "byc", "byc", "near"] + (["edge"] if getattr(fam, "edges", None) else [])))
         margins = MARGINS if draw(st.sampled_from([False, False, False, True])) else MARGINS[1:]
         wit = exact = None
         if how != "rand":
-            r = fam.construct(draw, L, fin, nout, vm)
+            Lc = L
+            if how == "edge":
+                # one parameter is forced to (shared grids) or allowed to reach (per-output grids) the first value past the
+                # end of its declared range, requested with a tight margin: a healthy helper refuses or answers in range
+                Lc = dict(L)
+                k = draw(st.sampled_from(fam.edges))
+                if k == "outs":
+                    Lc[k] = [[(g[0], g[1] + g[2], g[2]) for g in gs] for gs in L[k]]
+                elif k in getattr(fam, "edges_per_output", ()):
+                    Lc[k] = (L[k][0], L[k][1] + L[k][2], L[k][2])
+                else:
+                    Lc[k] = (L[k][1], L[k][1] + L[k][2], L[k][2])
+                margins = [1e-4]
+            r = fam.construct(draw, Lc, fin, nout, vm)
             if r is None:
                 how = "rand"
+                margins = MARGINS[1:] if margins == [1e-4] else margins
             else:
                 wit, exact = r
+                if how == "edge":
+                    wit = {k_: v for k_, v in wit.items() if k_ == "phases"}
         outs = []
         if how == "rand":
             lo, hi = fam.out_range(L, fin)
@@ -377,7 +393,7 @@ def st_case(fam, tier, classes=None):
                 ph = wit["phases"][i] if "phases" in wit else draw(fam.st_phase())
                 outs.append([f, ph, m])
         c = {"fam": fam.name, "cls": cls, "kw": kw, "vm": vm, "fin": fin, "outs": outs, "how": how}
-        if wit is not None:
+        if wit is not None and how != "edge":
             c["wit"] = {k: v for k, v in wit.items() if k != "phases"}
         return c
     return case()
@@ -455,6 +471,7 @@ def premise_fail(case, L):
 
 class Xilinx:
     name = "xilinx"
+    edges = ["div", "mult", "outs"]
     vms = [0.0, 0.0, 0.0, 0.05]
     TABLE = {  # class -> (module, primitive, is MMCM)
         "S6PLL": ("xilinx_s6", "PLL_ADV", False), "S6DCM": ("xilinx_s6", "DCM_CLKGEN", False),
@@ -653,6 +670,8 @@ XILINX = Xilinx()
 
 class ECP5:
     name = "ecp5"
+    edges = ["clkfb", "clko"]
+    edges_per_output = ("clko",)
     vms = [0.0]
     LET = {0: "P", 1: "S", 2: "S2", 3: "S3"}
 
@@ -878,6 +897,7 @@ ECP5F = ECP5()
 
 class ICE40:
     name = "ice40"
+    edges = ["divr", "divf", "divq"]
     vms = [0.0]
 
     def variants(self, tier, classes):
@@ -1005,6 +1025,8 @@ ICE40F = ICE40()
 
 class NX:
     name = "nx"
+    edges = ["clkfb", "clko"]
+    edges_per_output = ("clko",)
     vms = [0.0]
     LET = {0: "P", 1: "S", 2: "S2", 3: "S3", 4: "S4"}
 
@@ -1166,6 +1188,8 @@ NXF = NX()
 
 class Intel:
     name = "intel"
+    edges = ["n", "m", "c"]
+    edges_per_output = ("c",)
     vms = [0.0, 0.0, 0.0, 0.05]
     TABLE = {"CycloneIVPLL": ("intel_cyclone4", ["-6", "-7", "-8", "-8L", "-9L"]),
              "CycloneVPLL": ("intel_cyclone5", ["-C6", "-C7", "-I7", "-C8", "-A7"]),
@@ -1599,8 +1623,7 @@ class Gowin1:
             for i, sg in enumerate(sigs):
                 on = [p_ for p_ in self.PORTS if cfg.get(p_) is sg]
                 if not on:
-                    same_port = [j for j in range(len(outs)) if j != i and outs[j][0] // 1 and
-                                 any(cfg.get(p_) is sigs[j] for p_ in self.PORTS)]
+                    same_port = [j for j in range(len(outs)) if j != i and any(cfg.get(p_) is sigs[j] for p_ in self.PORTS)]
                     return "output-dropped", ("port-collision",), "the clock of request %d (%s) is on no port of the " \
                         "configuration (ports carry requests %r): the clock domain is left undriven" % (i, mhz(outs[i][0]), same_port)
                 ports.append(on[0])
@@ -2137,25 +2160,25 @@ def subchecks():
     return [
         Sub("xilinx-s7", XILINX.run, strategy=_gen(XILINX, ["S7PLL", "S7MMCM"]), examples=(2000, 20000), timeout=T,
             rule="S7PLL/S7MMCM x speed grade -1/-2/-3 x vco_margin {0, 0.05}; fractional CLKOUT0 divider of the MMCM"),
-        Sub("xilinx-s6", XILINX.run, strategy=_gen(XILINX, ["S6PLL", "S6DCM"]), examples=(1000, 10000), timeout=T,
+        Sub("xilinx-s6", XILINX.run, strategy=_gen(XILINX, ["S6PLL", "S6DCM"]), examples=(800, 10000), timeout=T,
             rule="S6PLL/S6DCM (DCM_CLKGEN: CLKFX_MULTIPLY/CLKFX_DIVIDE) x speed grade"),
-        Sub("xilinx-us", XILINX.run, strategy=_gen(XILINX, ["USPLL", "USMMCM", "USPPLL"]), examples=(1200, 12000), timeout=T,
+        Sub("xilinx-us", XILINX.run, strategy=_gen(XILINX, ["USPLL", "USMMCM", "USPPLL"]), examples=(1000, 12000), timeout=T,
             rule="USPLL/USMMCM/USPPLL x speed grade (all use XilinxClocking.compute_config)"),
-        Sub("xilinx-uspmmcm", XILINX.run, strategy=_gen(XILINX, ["USPMMCM"]), examples=(200, 2400), timeout=T,
+        Sub("xilinx-uspmmcm", XILINX.run, strategy=_gen(XILINX, ["USPMMCM"]), examples=(160, 2400), timeout=T,
             rule="USPMMCM (own compute_config: 1/8-step multiplier and CLKOUT0 divider) x speed grade"),
-        Sub("ecp5", ECP5F.run, strategy=_gen(ECP5F), examples=(1600, 16000), timeout=T,
+        Sub("ecp5", ECP5F.run, strategy=_gen(ECP5F), examples=(1400, 16000), timeout=T,
             rule="ECP5PLL, 1..4 outputs (4 over-weighted: no spare feedback output), feedback through a requested or a spare output"),
         Sub("ice40", ICE40F.run, strategy=_gen(ICE40F), examples=(2000, 20000), timeout=T,
             rule="iCE40PLL SB_PLL40_CORE/PAD, one output; 3/4 of the inputs below 133 MHz, 1/4 over the whole declared range"),
-        Sub("nx", NXF.run, strategy=_gen(NXF), examples=(320, 3200), timeout=T,
+        Sub("nx", NXF.run, strategy=_gen(NXF), examples=(240, 3200), timeout=T,
             rule="NXPLL 1..5 outputs (finalize computes the analog parameters: ~0.2 s per case)"),
-        Sub("intel", INTEL.run, strategy=_gen(INTEL), examples=(400, 4000), timeout=T,
+        Sub("intel", INTEL.run, strategy=_gen(INTEL), examples=(320, 4000), timeout=T,
             rule="Cyclone IV/V/10LP, MAX10, Stratix V x every speed grade; inputs mostly <= 100 MHz (quick) because the helper's "
                  "search grows with (f_in/5 MHz)^2; Stratix V up to 18 outputs"),
         Sub("gowin", GOWIN1.run, strategy=_gen(GOWIN1), examples=(3000, 30000), timeout=T,
             rule="GW1NPLL (5 device strings -> 4 VCO/PFD tables, rPLL/PLLVR) and GW2APLL; by-construction over the port shapes "
                  "CLKOUT/CLKOUTP/CLKOUTD/CLKOUTD3 in every request order; random: ratios 1,2,3,4,... of one frequency"),
-        Sub("gw5a", GOWIN5.run, strategy=_gen(GOWIN5), examples=(1600, 16000), timeout=T,
+        Sub("gw5a", GOWIN5.run, strategy=_gen(GOWIN5), examples=(1200, 16000), timeout=T,
             rule="GW5APLL: GW5A-/GW5AT-/GW5AST- devices (PLLA/PLL), 1..7 outputs"),
         Sub("trion", TRION.run, strategy=_gen(TRION), examples=(2000, 20000), timeout=T,
             rule="TRIONPLL.compute_config with a feedback output (the only path that computes in LiteX), 1..3 outputs, "
